@@ -8,7 +8,7 @@ from harness.plans import plan
 ID = "C15"
 
 UNARY = ["sin", "cos", "tanh", "exp", "log1p_abs", "square", "neg", "abs", "sigmoid", "sqrt1p", "floor", "int_roundtrip", "clip", "relu_where", "sign_mul",
-         "relu", "softplus", "complex_roundtrip", "fft_power", "guarded_sqrt", "top2", "switch3", "leaky_selu", "ste_round", "declared_rule", "relu_at_kink"]
+         "relu", "softplus", "complex_roundtrip", "fft_power", "guarded_sqrt", "top2", "switch3", "leaky_selu", "ste_round", "declared_rule", "relu_at_kink", "fori_loop", "sort_key_val", "scan_carry"]
 BINARY = ["add", "sub", "mul", "div", "maximum", "where_gt"]
 
 
@@ -57,6 +57,17 @@ def apply_unary(op, x):
     if op == "fft_power":
         v = jnp.atleast_1d(x)
         return jnp.sum(jnp.abs(jnp.fft.fft(v.reshape(-1))) ** 2) + 0.0 * x
+    if op == "fori_loop":  # multi-result loop primitive: integer counter next to the differentiable state
+        return jax.lax.fori_loop(0, 3, lambda i, c: c * 0.5 + jnp.sin(x) * (i + 1), x)
+    if op == "sort_key_val":  # differentiable values carried along integer keys
+        v = jnp.atleast_1d(x).reshape(-1)
+        k = jnp.argsort(-v).astype(jnp.int32)
+        ks, vs = jax.lax.sort_key_val(k, v * v)
+        return jnp.sum(vs * jnp.arange(1.0, vs.shape[0] + 1.0)) + 0.0 * jnp.sum(ks) + 0.0 * x
+    if op == "scan_carry":  # lax.scan with an integer counter in the carry and stacked outputs
+        v = jnp.atleast_1d(x).reshape(-1)
+        (c, n), ys = jax.lax.scan(lambda cn, e: ((cn[0] * 0.7 + e, cn[1] + 1), cn[0] * e), (jnp.sum(v), 0), v)
+        return c + jnp.sum(ys) + 0.0 * n + 0.0 * x
     if op == "ste_round":  # custom_jvp whose declared rule (straight-through) is not the derivative of its body
         @jax.custom_jvp
         def ste(v):
@@ -296,7 +307,7 @@ def one_case(ctx, case):
     nondiff = any(i[0] == "un" and i[1] in ("floor", "int_roundtrip", "relu_where", "sign_mul", "clip", "relu", "top2", "switch3", "guarded_sqrt", "ste_round", "relu_at_kink") for i in case["prog"]) or any(i[0] == "index" and i[1] in ("gather_computed", "argmax") for i in case["prog"])
     nt = (len(case["prog"]) >= 3 and bool(kinds & {"shape", "index", "linalg", "reduce"})) or nondiff or case["argspec"] in ("dict", "tuple_nested")
     ctx.case(case, nt, [f"C15.args_{case['argspec']}"] + [f"C15.op_{k}" for k in sorted(kinds)] + (["C15.nondifferentiable_intermediate"] if nondiff else []) +
-             [f"C15.cond_{i[1]}" for i in case["prog"] if i[0] == "cond"] + [f"C15.special_{i[1]}" for i in case["prog"] if i[0] == "un" and i[1] in ("relu", "complex_roundtrip", "fft_power", "guarded_sqrt", "top2", "switch3", "ste_round", "declared_rule", "relu_at_kink")],
+             [f"C15.cond_{i[1]}" for i in case["prog"] if i[0] == "cond"] + [f"C15.special_{i[1]}" for i in case["prog"] if i[0] == "un" and i[1] in ("relu", "complex_roundtrip", "fft_power", "guarded_sqrt", "top2", "switch3", "ste_round", "declared_rule", "relu_at_kink", "fori_loop", "sort_key_val", "scan_carry")],
              sample={**case, "info": info})
     for b, w in fails:
         ctx.fail(b, w, case)
